@@ -1096,15 +1096,17 @@ class MoneyConverter:
             raise ValueError(f"Not a valid period: {validity}.")
         # check type of validity
         type_of_validity = self._type_of_validity
-        if type_of_validity is None:
-            self._type_of_validity = type(validity)
-        elif type_of_validity is not type(validity):
+        if type_of_validity is not None and \
+                type_of_validity is not type(validity):
             raise ValueError('Different types of validity periods given.')
-        # update internal dict
+        # create all rates before anything gets changed, so that an invalid
+        # rate spec can not cause a partial update
         base_currency = self._base_currency
-        rates = (ExchangeRate(base_currency, unit_multiple, term_currency,
+        rates = [ExchangeRate(base_currency, unit_multiple, term_currency,
                               term_amount)
-                 for term_currency, term_amount, unit_multiple in rate_specs)
+                 for term_currency, term_amount, unit_multiple in rate_specs]
+        # update internal dict
+        self._type_of_validity = type(validity)
         # the term currency may be given by its symbol, so the currency of
         # the resulting rate has to be used as key
         it = (((validity, rate.term_currency), rate) for rate in rates)
